@@ -178,10 +178,18 @@ def _loader_group(part, rng, sis, exe, exhaustive, shard):
         data, tail = _stream(rng, short=short)
         se = msgoracle.StreamExpect(data)
         hx = data.hex()
-        lines.append("L 0 %s -" % hx)
+        # a fifth of the streams meet a loader with a configured maximum message size near the size of one of their
+        # messages: where the stream is declared corrupt must then not depend on the partition either
+        lim = 0
+        if se.frames and rng.random() < 0.2:
+            off, r = rng.choice(se.frames)
+            lim = max(17, r.need + rng.choice([-9, -8, -1, 0, 1, 7]))
+            tail = tail + ":limit"
+            part.count("streams-with-configured-size-limit")
+        lines.append("L %d %s -" % (lim, hx))
         meta.append(("ref", data, tail, None, None, se))
         for kind, chunks in _partitions(rng, len(data), se.frames, exhaustive2=short):
-            lines.append("L 0 %s %s" % (hx, ",".join(str(c) for c in chunks)))
+            lines.append("L %d %s %s" % (lim, hx, ",".join(str(c) for c in chunks)))
             meta.append(("part", data, tail, kind, chunks, se))
     res = hrun.run_cases(exe, lines, per_batch_timeout=900)
     ref = None
